@@ -78,6 +78,7 @@ def load_unit(py, run_ctors=True):
     spec.loader.exec_module(m)
     G = m.init_globals()
     rt.MODULE_GLOBALS = [G]
+    rt.MODULE = [m]
     # type_info vtables (external globals): record their +16 addresses for inheritance walks
     for i, n in enumerate(('_ZTVN10__cxxabiv120__si_class_type_infoE', '_ZTVN10__cxxabiv117__class_type_infoE', '_ZTVN10__cxxabiv121__vmi_class_type_infoE')):
         if n in G: rt.TI_SI_VTABLE[i] = G[n] + 16
